@@ -41,6 +41,35 @@ CHECKS = {
         "Index semantics taken from numpy; operands share the receiver's entities on the other axes; tie order in sorts unconstrained; "
         "square-taxa, breeding-value and trait-square families are covered to the extent stated in evidence.",
         "DESIGN.md §3 C03"),
+    "C04": (
+        "Hypothesis-generated models/genotypes vs fsum/Fraction definitions; metamorphic relations (input form, permutation, marker partition); ridge-fit optimality conditions",
+        "Generated additive / additive-dominance / rrBLUP-class models (1..3 traits, q 1..3 fixed effects, exact-zero and signed effects) and "
+        "genotypes (ploidy 1/2/4, 1..60 taxa plus the sizes where 1/(ploidy*n) is inexact, 1..25 markers): gebv/gegv/predict/TrueBreedingValue "
+        "values and labels from phased, unphased and raw-array input, taxon-permutation equivariance, additivity over marker partitions, score, "
+        "var_A/var_G/var_a, Bulmer ratio incl. its NaN rule, all twelve favourable/deleterious/neutral allele statistics with every dtype, and for "
+        "fitted rrBLUP models: intercept = training mean, monomorphic markers exactly zero, penalised criterion no worse than the zero solution, "
+        "normal equations within a bound derived from the solver's stopping rules.",
+        "Tolerances are k*eps*sum|terms|; no subnormal effects; Nelder-Mead optimum of the likelihood is not itself checked.",
+        "DESIGN.md §3 C04"),
+    "C13": (
+        "Hypothesis-generated genotype matrices vs loop-formula reference estimators; algebraic laws and summaries on generated symmetric matrices",
+        "Generated genotype matrices (phased/unphased, ploidy 1/2/4, 1..12 taxa, 1..25 markers), reference frequencies (None/scalar/array) and "
+        "weights for the molecular, VanRaden, Yang and generalised-weighted estimators through classmethods and factories: values against "
+        "independent loop formulas (molecular = 2 x mean IBS by enumerating allele pairs), labels and group metadata, symmetry, PSD with a Weyl "
+        "bound, kinship = half coancestry, commutation with sub-selection/permutation for fixed reference frequencies, inverse / extreme / mean / "
+        "minimum-inbreeding summaries and the PSD predicate against numpy on the oracle matrix; a second sub-check wraps generated PD, singular "
+        "and indefinite matrices.",
+        "Inverse and min-inbreeding only for condition number <= 1e6; Yang reference frequencies in [0.01,0.99]; weights 0 or >= 1e-6.",
+        "DESIGN.md §3 C13"),
+    "C16": (
+        "Hypothesis-generated objects, write histories and VCF text; round-trip / last-writer-wins / copy-independence oracles via a generic observable-state snapshot",
+        "Generated objects of 32 classes (optional label arrays present/absent, grouped/ungrouped, non-ASCII labels, 1..3 traits): HDF5 write "
+        "histories (1..4 writes with overwrite to generated file/group paths, read back equals the last object written, writing does not mutate), "
+        "pandas/CSV/dict/egmap round trips with generated column names, separators and units, VCF text generated from a grammar and imported by "
+        "both genotype classes (sample names, coordinates, ids, phased calls exact), copy/deepcopy equality, no shared memory, and mutation of "
+        "every array of the deep copy leaving the source unchanged.",
+        "Frame formats cannot represent an absent label array (skipped there); CSV floats exact for dyadic values, 1e-12 relative otherwise (pandas parser).",
+        "DESIGN.md §3 C16"),
     "C09": (
         "Hypothesis-generated genotype matrices vs exact integer/Fraction definitions (exact 0/1 boundary)",
         "Generated-input search: phased/unphased matrices (ploidy 1/2/4, 1..300 taxa with the sizes where "
